@@ -62,6 +62,9 @@ const (
 // stuck is set when a wrapper call did not return within wrapWatchdog.
 var stuck atomic.Bool
 
+// leakReports counts the cases of this process that reported leaked goroutines.
+var leakReports atomic.Int32
+
 func skipIfStuck(c *kit.Case) bool {
 	if stuck.Load() {
 		c.Inconclusive("skipped: an earlier wrapper call in this process never returned")
@@ -1063,6 +1066,10 @@ func census(c *kit.Case, rp reporter) {
 	if stuck.Load() {
 		return // an unjoined wrapper call is reported as inconclusive, not as a leak
 	}
+	if leakReports.Load() >= 3 {
+		c.Obs("census_skipped_after_leak_reports", 1) // a leaking tree would otherwise cost seconds per case
+		return
+	}
 	// all harness-owned goroutines were joined; what is left of go-zero's goroutines is the
 	// tail after the work function returned. Give it time to run (the machine may be heavily
 	// loaded) before asking for a *stable* set of parked goroutines.
@@ -1074,6 +1081,9 @@ func census(c *kit.Case, rp reporter) {
 	if !conclusive {
 		c.Inconclusive("goroutine census did not stabilise")
 		return
+	}
+	if len(leaked) > 0 {
+		leakReports.Add(1)
 	}
 	for _, g := range leaked {
 		rp.viol("leak", leakKey(g.Stack), fmt.Sprintf("%d goroutine(s) still parked with an identical stack after the work returned", g.Count), map[string]any{"stack": g.Stack, "count": g.Count})
